@@ -1250,3 +1250,296 @@ def _c16_collect(pid, procs, violations):
 
 C16_THEOREMS = []
 C16_MODULES = []
+
+
+# ------------------------------------------------------------------------------------------- C15
+
+def check_C15(tier):
+    pid = "C15"
+    rng = random.Random(common.seed() * 1000003 + 15)
+    ok, msg = prebuild()
+    if not ok:
+        return build_failure(pid, tier, msg)
+    proof = common.prove(C15_THEOREMS, C15_MODULES)
+    xc = make_xcases(tier, rng, n=10 if tier == "quick" else 60)
+    def inputs_of(c):
+        return gen.x_inputs(c["xs"], rng, max_len=2, n_sent=12, cap=40)
+    res = xrun.run_c15(xc, inputs_of, rng)
+    ties, violations, samples = [], [], []
+    if res["build_error"]:
+        ties.append({"what": "generated files do not compile", "detail": res["build_error"][-1500:]})
+    if res["race"]:
+        violations.append({"key": common.finding_key({"race": True}), "what": "data race between parsers running on distinct contexts",
+                           "replay": {"property": pid, "race_report": res["race"]}})
+    evals = 0
+    for c in res["usable"]:
+        exp = {}
+        for i, w in enumerate(c["base"]):
+            exp[w] = res["mruns"].get((c["id"], i))
+        h = res["meta"]["%s|h" % c["id"]]["pkg"]
+        k = res["meta"]["%s|c" % c["id"]]["pkg"]
+
+        def norm(r):
+            if isinstance(r, dict):
+                return (xrun.norm_verdict(r["V"]), r["Log"] or [], r["Val"])
+            return (xrun.norm_verdict(r[0]), r[1] or [], r[2])
+
+        def cmp(label, ins, outs, variant):
+            nonlocal evals
+            if outs is None:
+                ties.append({"what": "no output from the runner", "case": c["id"], "mode": label})
+                return
+            for w, r in zip(ins, outs):
+                evals += 1
+                e = exp.get(w)
+                got = norm(r)
+                if e is None:
+                    continue
+                if got[0] == "loop" or e[0] == "loop":
+                    if got[0] != e[0]:
+                        violations.append(xviol15(pid, res, c, variant, label, w, got, e))
+                    continue
+                if got != (e[0], e[1], e[2]):
+                    violations.append(xviol15(pid, res, c, variant, label, w, got, e))
+        cmp("global parser: history of parses with ParserInit() in between", c["hist"], res["out"].get(h), "h")
+        cmp("fresh context per parse", c["base"], res["out"].get(k + ":F"), "c")
+        cmp("one context reused over a history with c.ParserInit() in between", c["hist"], res["out"].get(k + ":R"), "c")
+        conc = res["out"].get(k + ":C")
+        if conc is not None:
+            for w, rounds in zip(c["base"][:16], conc):
+                cmp("distinct contexts running concurrently (3 rounds each)", [w] * len(rounds), rounds, "c")
+        if res["node"]:
+            tr = res["tsruns"].get(c["id"], [])
+            cmp("TypeScript parser: history with initialize() in between", [x[0] for x in tr], [[x[1], x[2], x[3]] for x in tr], "ts")
+            if len(tr) != len(c["hist"]):
+                ties.append({"what": "TypeScript history run incomplete", "case": c["id"], "got": len(tr), "want": len(c["hist"])})
+        if len(samples) < 2:
+            samples.append({"case": c["id"], "history": c["hist"][:8], "results": (res["out"].get(h) or [])[:4]})
+    cov = {"evaluations": evals, "distinct_nontrivial": len(res["usable"]),
+           "rule": "per grammar: a shuffled history with repeats (accepted and rejected inputs mixed) on the global Go parser with ParserInit() in between, on one reused -o context with c.ParserInit() in between, on fresh contexts, on up to 16 contexts parsing concurrently (3 rounds each) under the Go race detector, and on the TypeScript parser with initialize() in between; every result must equal the pure-function result of the Lean driver model on the scraped table",
+           "samples": samples, "race_detector": bool(res.get("race_build")), "ts_skipped": 0 if res["node"] else len(res["usable"]),
+           "programs": len(res["usable"]) * 3, "disagreements_checked": len(ties) + len(violations), "trusted_base": TRUSTED + ["Go race detector"],
+           "partial": ["memory-level data races are outside the Lean model; they are covered by the race detector run only"]}
+    return common.conclude(pid, tier, C15_LEVEL, proof, ties, violations, cov, [])
+
+
+def xviol15(pid, res, c, variant, label, w, got, exp):
+    m = res["meta"]["%s|%s" % (c["id"], variant)]
+    payload = {"property": pid, "what": "a parse depends on earlier or concurrent parses", "mode": label, "grammar_file": m["src"],
+               "input": w, "got": list(got), "expected_solo": list(exp), "history": c["hist"]}
+    return {"key": common.finding_key({"src": m["src"], "mode": label, "input": w}), "what": payload["what"] + " (" + label + ")", "replay": payload}
+
+
+C15_THEOREMS = ["ArrS.abs_push", "ArrS.abs_pop", "ArrS.abs_initGlobal", "ArrS.abs_initObj"]
+C15_MODULES = ["Yv.Proofs.ArrStack"]
+C15_LEVEL = "proof"
+
+
+# ------------------------------------------------------------------------------------------- front end (C10-C13)
+
+def run_front(cases, timeout=900):
+    """cases: list of dict(id, src) -> dict id -> {'impl': [...], 'model': [...]}"""
+    def run_batch(batch, tmo):
+        inp = "".join(json.dumps({"id": c["id"], "src": c["src"]}) + "\n" for c in batch).encode()
+        try:
+            p = common.sh(["bash", "-c", "ulimit -v 6000000; exec %s front" % (common.BIN + "/yharness")], inp=inp, timeout=tmo)
+            return p.returncode == 0, p.stdout
+        except subprocess.TimeoutExpired:
+            return False, b""
+    out = b""
+    B = 200
+    for k in range(0, len(cases), B):
+        batch = cases[k:k + B]
+        good, txt = run_batch(batch, 30 + len(batch))
+        if good:
+            out += txt
+            continue
+        # the process died or hung: run its cases one by one; a case that kills it alone is recorded as a hang
+        for c in batch:
+            good, txt = run_batch([c], 20)
+            if good:
+                out += txt
+            else:
+                out += ("FCASE %s\nPROCESSDIED\nBUILDHANG\nFEND\n" % c["id"]).encode()
+    m = common.sh([common.YMODEL], inp=out, timeout=timeout)
+    p = type("P", (), {"stdout": out})
+    impl = parse_blocks(p.stdout.decode(errors="replace"), "FCASE", "FEND")
+    model = parse_blocks(m.stdout.decode(errors="replace"), "FCASE", "FEND")
+    return {c["id"]: {"impl": [l for l in impl.get(c["id"], []) if not l.startswith("SRC ")],
+                      "model": model.get(c["id"], [])} for c in cases}
+
+
+def front_stage_ties(cid, rec, src, stages=("TOK", "AST", "GRAMMAR", "SYM", "RULE", "REFUSE")):
+    """model vs implementation, stage by stage (ASCII texts only)"""
+    ml = [l[2:] for l in rec["model"] if l.startswith("M ")]
+    if any(l in ("NONASCII", "NONUTF8") for l in ml):
+        return []
+    ties = []
+    for st in stages:
+        a = [l for l in rec["impl"] if l.split()[0] == st]
+        b = [l for l in ml if l.split()[0] == st]
+        if st == "REFUSE":
+            a = [" ".join(l.split()[:2]) for l in a]
+            a = [x if not x.startswith("REFUSE panic") else "REFUSE panic" for x in a]
+            b = [x if not x.startswith("REFUSE panic") else "REFUSE panic" for x in b]
+        if a != b:
+            k = next((i for i in range(max(len(a), len(b))) if i >= len(a) or i >= len(b) or a[i] != b[i]), 0)
+            ties.append({"what": "front-end mirror stage differs: " + st, "case": cid, "src": src[:2000],
+                         "impl": a[k] if k < len(a) else "<missing>", "model": b[k] if k < len(b) else "<missing>"})
+            break
+    return ties
+
+
+def unq(s):
+    return json.loads(s) if s.startswith('"') else s
+
+
+def digest_front(lines):
+    """what the implementation read, in terms of names"""
+    d = {"syms": {}, "rules": [], "actions": {}, "ast": {}, "refuse": None, "hang": None, "ast_err": False}
+    for l in lines:
+        f = l.split(" ", 1)
+        if f[0] in ("LEXHANG", "PARSEHANG", "BUILDHANG"):
+            d["hang"] = f[0]
+        elif f[0] == "REFUSE":
+            d["refuse"] = l.split()[1]
+        elif f[0] == "AST":
+            g = f[1].split(" ", 1)
+            if g[0] in ("ERR", "PANIC"):
+                d["ast_err"] = True
+            elif g[0] in ("code", "union", "rest", "start"):
+                d["ast"][g[0]] = unq(g[1])
+        elif f[0] == "SYM":
+            p = l.split(" ", 8)
+            d["syms"][int(p[1])] = {"nt": p[2] == "1", "value": int(p[3]), "prec": int(p[4]), "assoc": int(p[5]),
+                                    "name": unq(p[7]), "tag": unq(p[8]) if len(p) > 8 else ""}
+        elif f[0] == "RULE":
+            p = l.split()
+            d["rules"].append((int(p[2]), int(p[3]), [int(x) for x in p[4:]]))
+        elif f[0] == "ACTION":
+            p = l.split(" ", 2)
+            d["actions"][int(p[1])] = unq(p[2])
+        elif f[0] == "START":
+            d["start"] = unq(l.split(" ", 1)[1])
+    return d
+
+
+def sym_name(s):
+    return "$operator" + s[1] if s.startswith("'") else s
+
+
+def expected_front(fs):
+    """what C10 says the grammar must contain, from the abstract file spec"""
+    level = {}
+    for i, (kind, syms) in enumerate(fs["prec"]):
+        for s in syms:
+            level[s] = (i + 1, {"left": 0, "right": 1}.get(kind, 2))
+    rules = []
+    for i, r in enumerate(fs["rules"]):
+        pr = None
+        for s in r["rhs"]:
+            if s in level:
+                pr = s
+        if r.get("prec"):
+            pr = r["prec"] if r["prec"] in level else None
+        rules.append({"lhs": r["lhs"], "rhs": [sym_name(s) for s in r["rhs"]], "prec": sym_name(pr) if pr else None,
+                      "action": fs["actions"][i] or ""})
+    syms = {}
+    for t in fs["tokens"]:
+        syms[t] = {"tag": fs["tags"].get(t, ""), "value": fs["nums"].get(t), "level": level.get(t, (-1, 2))}
+    for l in fs["lits"]:
+        syms[sym_name(l)] = {"tag": fs["tags"].get(l, ""), "value": ord(l[1]), "level": level.get(l, (-1, 2))}
+    for n in fs["nts"]:
+        syms[n] = {"tag": fs["tags"].get(n, ""), "value": None, "level": (-1, 2)}
+    return {"rules": rules, "syms": syms, "start": fs["start"], "code": fs["prologue"], "union": fs["union"], "rest": fs["epilogue"]}
+
+
+def compare_front(d, exp):
+    """returns None if the implementation read exactly the expected grammar, else a description"""
+    if d["refuse"] or d["ast_err"] or d["hang"]:
+        return "not accepted: %s" % (d["refuse"] or d["hang"] or "syntax error")
+    name = {k: v["name"] for k, v in d["syms"].items()}
+    got_rules = []
+    for i, (lhs, ps, rhs) in enumerate(d["rules"]):
+        if i == 0:
+            if [name[x] for x in rhs] != [exp["start"]]:
+                return "start symbol is %s, expected %s" % ([name[x] for x in rhs], exp["start"])
+            continue
+        got_rules.append({"lhs": name[lhs], "rhs": [name[x] for x in rhs], "prec": name[ps] if ps >= 0 else None,
+                          "action": d["actions"].get(i, "")})
+    if got_rules != exp["rules"]:
+        for i in range(max(len(got_rules), len(exp["rules"]))):
+            a = got_rules[i] if i < len(got_rules) else None
+            b = exp["rules"][i] if i < len(exp["rules"]) else None
+            if a != b:
+                return "rule %d read as %s, expected %s" % (i + 1, a, b)
+    by_name = {v["name"]: v for v in d["syms"].values()}
+    for n, e in exp["syms"].items():
+        g = by_name.get(n)
+        if g is None:
+            # a literal or nonterminal that occurs nowhere in the file (no tag, no precedence, no rule) is not a symbol
+            used = any(n == r["lhs"] or n in r["rhs"] for r in exp["rules"]) or e["tag"] or e["level"][0] != -1 or n == exp["start"]
+            if not used and (e["value"] is None or n.startswith("$operator")):
+                continue
+            return "symbol %s missing" % n
+        if g["tag"] != e["tag"]:
+            return "symbol %s has tag %r, expected %r" % (n, g["tag"], e["tag"])
+        if e["value"] is not None and g["value"] != e["value"]:
+            return "token %s has code %d, expected %d" % (n, g["value"], e["value"])
+        if (g["prec"], g["assoc"]) != e["level"] and not g["nt"]:
+            return "token %s has precedence %s, expected %s" % (n, (g["prec"], g["assoc"]), e["level"])
+    for k in ("code", "union", "rest"):
+        if d["ast"].get(k) != exp[k]:
+            return "%s carried as %r, expected %r" % ({"code": "prologue", "union": "%union body", "rest": "epilogue"}[k], d["ast"].get(k), exp[k])
+    return None
+
+
+def check_C10(tier):
+    pid = "C10"
+    rng = random.Random(common.seed() * 1000003 + 10)
+    ok, msg = prebuild()
+    if not ok:
+        return build_failure(pid, tier, msg)
+    proof = common.prove(C10_THEOREMS, C10_MODULES)
+    nspec = 60 if tier == "quick" else 500
+    nlay = 6 if tier == "quick" else 16
+    cases, specs = [], {}
+    for i in range(nspec):
+        fs = gen.file_spec(rng)
+        specs[i] = fs
+        cases.append({"id": "s%d:min" % i, "src": gen.render_file(fs, minimal=True)})
+        for k in range(nlay):
+            cases.append({"id": "s%d:l%d" % (i, k), "src": gen.render_file(fs, rng, drop_semi=(k % 2 == 1), drop_last_section=(k % 3 == 2))})
+    rec = run_front(cases)
+    ties, violations, samples = [], [], []
+    refused_specs = 0
+    base_refusal = {}
+    for c in cases:
+        i = int(c["id"].split(":")[0][1:])
+        exp = expected_front(specs[i])
+        d = digest_front(rec[c["id"]]["impl"])
+        ties += front_stage_ties(c["id"], rec[c["id"]], c["src"])
+        if c["id"].endswith(":min"):
+            base_refusal[i] = d["refuse"] if d["refuse"] in ("unproductive", "norule", "undefined") else None
+            if base_refusal[i]:
+                refused_specs += 1
+        if base_refusal.get(i):
+            # the specification itself is an unusable grammar (C12): every layout must be refused the same way
+            why = None if d["refuse"] == base_refusal[i] else "layout changes the verdict: %s vs %s" % (d["refuse"], base_refusal[i])
+        else:
+            why = compare_front(d, exp)
+        if why:
+            violations.append({"key": common.finding_key({"src": c["src"]}), "what": "grammar file not read faithfully: " + why,
+                               "replay": {"property": pid, "grammar_file": c["src"], "why": why, "layout": c["id"]}})
+    samples.append({"layout": cases[1]["id"], "grammar_file": cases[1]["src"][:700]})
+    cov = {"evaluations": len(cases), "distinct_nontrivial": nspec,
+           "rule": "random abstract file specifications (prologue, %union body, tagged/numbered tokens, literal tokens, %type, precedence lines, %start, rules with %prec and action bodies containing braces/comments, epilogue) x textual renderings: a minimal one and random ones (gaps drawn from blanks, tabs, newlines, // and /* */ comments incl. /**/ and /* x **/, optional ';'); the implementation's result (rules in order, symbols, start, numbers, tags, precedence, verbatim sections) is compared with what the specification says, and all stages with the Lean front-end model; distinct = specifications",
+           "samples": samples, "layouts_per_spec": nlay + 1, "specs_refused_as_unusable": refused_specs, "trusted_base": TRUSTED,
+           "partial": ["layout-independence of the token stream and the parser/visitor round trip are established by correspondence and by the expected-result comparison; the kernel-checked part is the totality of the lexer model (lexAll_total)"]}
+    return common.conclude(pid, tier, C10_LEVEL, proof, ties[:50], violations, cov,
+                           ["layouts stay inside the domain of DESIGN §4: `%union` and its `{` are separated by blanks only; identifiers are not directive words"])
+
+
+C10_THEOREMS = ["YLex.lexAll_total"]
+C10_MODULES = ["Yv.Proofs.YLexTotal"]
+C10_LEVEL = "proof"
